@@ -231,6 +231,9 @@ func (ex *Exec) call(fr *Frame, st *State, instr ssa.Value, com *ssa.CallCommon,
 				ptypes = append(ptypes, sig.Params().At(i).Type())
 				pnames = append(pnames, sig.Params().At(i).Name())
 			}
+			if c.HasNames && len(c.Params) == len(pnames) {
+				pnames = c.Params
+			}
 			return ex.applyContract(c, key, sig, pnames, ptypes, all, st, in)
 		}
 		ex.havoc("call of " + key + " (no contract)")
